@@ -253,6 +253,10 @@ PanObjs(pl) == {
   TObj(1, {"SF"}, <<SUnsafeString(P(700)), SPrint(<<UStr(2)>>), SPanic(pl)>>, <<>>, <<>>, <<>>),
   TObj(1, {"SF"}, <<SSafeString(P(600)), SPrint(<<TObj(2, {"SF"}, <<SUnsafeString(P(701)), SPanic(pl)>>, <<>>, <<>>, <<>>)>>), SSafeString(P(601))>>, <<>>, <<>>, <<>>),
   TObj(1, {"SF"}, <<SPrintf(<<A>> \o Fv, <<TObj(2, {"ST"}, <<>>, <<>>, <<>>, <<pl>>)>>), SSafeString(P(601))>>, <<>>, <<>>, <<>>),
+  \* a nested Print whose first write is unsafe (it continues the envelope the outer printer has just closed), then a
+  \* Stringer that panics: with a payload that panics while printed the panic crosses the nested printer (F10)
+  TObj(1, {"SF"}, <<SPrint(<<UStr(2), TObj(3, {"ST"}, <<>>, <<>>, <<>>, <<pl>>)>>), SSafeString(P(601))>>, <<>>, <<>>, <<>>),
+  TObj(1, {"SF"}, <<SPrintf(Fs \o Fv, <<UStr(2), TObj(3, {"ST"}, <<>>, <<>>, <<>>, <<pl>>)>>)>>, <<>>, <<>>, <<>>),
   TObj(1, {"FM"}, <<>>, <<SWrite(P(702)), SPanic(pl)>>, <<>>, <<>>),
   TObj(1, {"FM"}, <<>>, <<SDiscover, SSafeString(P(600)), SPanic(pl)>>, <<>>, <<>>),
   TObj(1, {"ST", "NILP"}, <<>>, <<>>, <<>>, <<>>), TObj(1, {"SF", "NILP"}, <<>>, <<>>, <<>>, <<>>), TObj(1, {"ER", "FM", "NILP"}, <<>>, <<>>, <<>>, <<>>)
@@ -265,6 +269,8 @@ PanicRoots == PanPayloads
 PanicExpand(pl) == UNION {UNION {{Case("Sprintf", Around(f), ts, <<>>) : f \in {Fv, Fd, FsharpV, F6v}}
                                   \cup {Case("Sprint", <<>>, <<UInt(95)>> \o ts \o <<UStr(96)>>, <<>>)}
                                  : ts \in PanCtx(o)} : o \in PanObjs(pl)}
+                   \* no literal between an unsafe operand and the panicking one, nor after it
+                   \cup {Case("Sprintf", Fs \o Fv \o Fs, <<UStr(94), o, UStr(96)>>, <<>>) : o \in PanObjs(pl)}
 
 \* ---- slice "errorf" (C15): HelperForErrorf with 0..3 %w directives and every operand class
 FwIdx1 == <<37, 91, 49, 93, 119>>   FwIdx2 == <<37, 91, 50, 93, 119>>   F5w == <<37, 53, 119>>
